@@ -140,11 +140,13 @@ func driveC01(c *h.Ctx) error {
 				c.Fail("C01/roundtrip/decoded-value-unprintable", err.Error(), caseJSON)
 				continue
 			}
-			if vout != vin {
+			if gv.NormalizeTerm(vout) != gv.NormalizeTerm(vin) {
 				d := gv.Diff(reflect.ValueOf(msgPtr(msg)).Elem(), reflect.ValueOf(out).Elem())
 				caseJSON["first_difference"] = d
 				c.Fail("C01/roundtrip/content-differs", "decoded message differs from the original at "+d, caseJSON)
 				obs = "OOk (" + vout + ")"
+			} else if vout != vin {
+				obs = "OOk (" + vout + ")" // nil vs empty byte strings only: equal in content
 			}
 			b2, p2 := safeMarshal(out)
 			if p2 != "" || !bytes.Equal(b, b2) {
